@@ -15,7 +15,9 @@ localized segments x paths x sequences of locale switches") as the generator see
               `none` when the path was not made from a route
   overlap     no-match | unique | first-of-many | shadowed     how the path reads against the table
   query       yes | no
-  frag        yes | no
+  hash_form   none | bare | browser | browser-##     Location.hash as given: "", "top" (server/tests), "#top" (client:
+                                       window.location.hash unmodified), "##x" (browser form of the fragment "#x");
+                                       "#" alone is generated outside the table (the property cannot decide it)
   slashes     normal | trailing | doubled        spelling of the path handed to the router
   locale_arg  ctx | none | path        the `locale` argument: the context's previous locale, None (maybe_redirect),
                                        read back from the path (correct_locale_prefix_effect, histories only)
@@ -46,7 +48,7 @@ DIMS = {
              + ["splat-empty@first", "splat-empty@last", "splat-nonempty@first", "splat-nonempty@last"],
     "overlap": ["no-match", "unique", "first-of-many", "shadowed"],
     "query": ["yes", "no"],
-    "frag": ["yes", "no"],
+    "hash_form": ["none", "bare", "browser", "browser-##"],
     "slashes": ["normal", "trailing", "doubled"],
     "locale_arg": ["ctx", "none", "path"],
     "hist_len": ["0", "1", "2", "3", "4+"],
@@ -321,9 +323,9 @@ def gen(rng, force=None):
             table.insert(rng.choice([0, 1]), rng.choice(catch))
     segs = render(inst, a)
     query = pick(rng, force, "query")
-    frag = pick(rng, force, "frag")
+    hform = pick(rng, force, "hash_form", [3, 2, 4, 1])
     search = rng.choice(QUERIES) if query == "yes" else ""
-    hsh = rng.choice(HASHES) if frag == "yes" else ""
+    hsh = {"none": "", "bare": rng.choice(HASHES), "browser": "#" + rng.choice(HASHES), "browser-##": rng.choice(["##x", "##top"])}[hform]
     sl = pick(rng, force, "slashes", [6, 2, 2])
     path = url(names, dflt, bsegs, a, segs)
     if explicit:
@@ -352,7 +354,7 @@ def gen(rng, force=None):
 def in_domain(c):
     """the Python side's reading of `valid_url` / `hist_valid` (cross-checked against Coq's codes by the check)"""
     names, dflt, atab, n = c["names"], c["dflt"], c["atab"], len(c["names"])
-    if not all(seg_ok(x) for x in names) or len(set(names)) != n:
+    if not all(seg_ok(x) for x in names) or len(set(names)) != n or c["hash"] == "#":
         return False
     segs = render(c["inst"], c["a"])
     cur = c["a"]
@@ -403,7 +405,8 @@ def tags(c):
     else:
         t["overlap"] = "first-of-many" if ps[0] == list(c["inst"]) else "shadowed"
     t["query"] = "yes" if c["search"] else "no"
-    t["frag"] = "yes" if c["hash"] else "no"
+    h = c["hash"]
+    t["hash_form"] = "none" if h == "" else ("browser-##" if h.startswith("##") else ("browser" if h.startswith("#") else "bare"))
     t["slashes"] = c["intent"]["slashes"]
     if "ls" in c:
         t["locale_arg"] = "path" if c["by_path"] else "ctx"
